@@ -7,7 +7,7 @@ use emit_traceparent::{TraceFlags, Traceparent, Tracestate};
 
 use crate::exec::{alternating, block_on, catch_fut, catch_planned, join, planned_panic, yield_now, BoxFut};
 use crate::rt::{Log, Rt, Sc, Tp, L};
-use crate::tree::{u128_of, Carry, Form, Header, PItem, PNode, PushVia};
+use crate::tree::{u128_of, Carry, Form, Header, PItem, PNode, PushVia, RunHow};
 
 pub struct Env<'a> {
     pub rt: &'a Rt,
@@ -18,7 +18,11 @@ pub struct Env<'a> {
     pub skip_broken_hops: bool,
     /// first panic caught on a helper thread
     pub fail: &'a std::sync::Mutex<Option<vcore::Fail>>,
+    /// frames captured by `CaptureFrame` items, by slot, until a `RunFrame` takes them
+    pub frames: &'a [std::sync::Mutex<Option<CapturedFrame<'a>>>],
 }
+
+pub type CapturedFrame<'a> = Frame<&'a emit_traceparent::TraceparentCtxt<emit::platform::thread_local_ctxt::ThreadLocalCtxt>>;
 
 impl<'a> Env<'a> {
     fn push(&self, l: L) {
@@ -439,6 +443,33 @@ pub fn run_sync(env: &Env, items: &[PItem]) {
                 let _ = catch_planned(|| run_sync(env, items));
                 check(env, *post);
             }
+            PItem::CaptureFrame { slot, props } => capture_frame(env, *slot, *props),
+            PItem::RunFrame { frame, how, items, pre, end, post, .. } => {
+                match frame.and_then(|f| env.frames[f].lock().unwrap().take()) {
+                    None => {
+                        check(env, *pre);
+                        run_sync(env, items);
+                    }
+                    Some(frame) => match how {
+                        RunHow::Call => frame.call(|| {
+                            check(env, *pre);
+                            run_sync(env, items)
+                        }),
+                        RunHow::EnterGuard => {
+                            let mut frame = frame;
+                            let _entered = frame.enter();
+                            check(env, *pre);
+                            run_sync(env, items)
+                        }
+                        RunHow::InFuture => block_on(frame.in_future(async {
+                            check(env, *pre);
+                            run_async(env, items).await
+                        })),
+                        RunHow::OtherThread => run_frame_elsewhere(env, frame, items, *pre, *end),
+                    },
+                }
+                check(env, *post);
+            }
             PItem::Push { id, header, via, items, pre, post, .. } => {
                 let frame = push_header(env, *id, header, *via);
                 frame.call(|| {
@@ -480,6 +511,38 @@ pub fn run_async<'a>(env: &'a Env<'a>, items: &'a [PItem]) -> BoxFut<'a> {
                     catch_fut(run_async(env, items)).await;
                     check(env, *post);
                 }
+                PItem::CaptureFrame { slot, props } => capture_frame(env, *slot, *props),
+                PItem::RunFrame { frame, how, items, pre, end, post, .. } => {
+                    match frame.and_then(|f| env.frames[f].lock().unwrap().take()) {
+                        None => {
+                            check(env, *pre);
+                            run_async(env, items).await;
+                        }
+                        Some(frame) => match how {
+                            // synchronous ways of entering run their items within this poll
+                            RunHow::Call => frame.call(|| {
+                                check(env, *pre);
+                                run_sync(env, items)
+                            }),
+                            RunHow::EnterGuard => {
+                                let mut frame = frame;
+                                let _entered = frame.enter();
+                                check(env, *pre);
+                                run_sync(env, items)
+                            }
+                            RunHow::InFuture => {
+                                frame
+                                    .in_future(async {
+                                        check(env, *pre);
+                                        run_async(env, items).await
+                                    })
+                                    .await
+                            }
+                            RunHow::OtherThread => run_frame_elsewhere(env, frame, items, *pre, *end),
+                        },
+                    }
+                    check(env, *post);
+                }
                 PItem::Push { id, header, via, items, pre, post, .. } => {
                     let frame = push_header(env, *id, header, *via);
                     frame
@@ -519,6 +582,41 @@ fn spawn_tasks<'a>(env: &'a Env<'a>, carry: bool, tasks: &'a [Vec<PItem>]) -> Ve
             }
         })
         .collect()
+}
+
+// ---------------------------------------------------------------------------------------------
+// non-span frames captured at one point and entered at another
+
+fn capture_frame<'a>(env: &Env<'a>, slot: usize, props: bool) {
+    let rt: &'a Rt = env.rt;
+    let frame = if props {
+        let job = slot as u64;
+        Frame::push(rt.ctxt(), emit::props! { job })
+    } else {
+        Frame::current(rt.ctxt())
+    };
+    *env.frames[slot].lock().unwrap() = Some(frame);
+}
+
+fn run_frame_elsewhere(env: &Env, frame: CapturedFrame<'_>, items: &[PItem], pre: usize, end: Option<usize>) {
+    let r = std::thread::scope(|s| {
+        s.spawn(move || {
+            vcore::catch(move || {
+                // a planned panic in the body is caught by this thread, which then shows it is clean again
+                let _ = catch_planned(|| {
+                    frame.call(|| {
+                        check(env, pre);
+                        run_sync(env, items)
+                    })
+                });
+                if let Some(end) = end {
+                    check(env, end);
+                }
+            })
+        })
+        .join()
+    });
+    rejoin(env, r);
 }
 
 // ---------------------------------------------------------------------------------------------
